@@ -143,6 +143,22 @@ def kani_is(prog):
         assert!(e.try_as_%s_mut().is_none());
     }''' % (sn, E, others[0].ident, sn))
             hs.append(('mut_none_' + sn, 'try_as_%s_mut' % sn))
+    # twins of the is_* / try_as_* contracts (stand in when the generated code leaves Verus' subset; thorough tier otherwise)
+    from .spec_print import any_value
+    for v in prog.variants:
+        val = any_value(prog, v)
+        if val is None:
+            continue
+        checks = []
+        for w in prog.enabled():
+            sn = oracle.snake_with_digits(w.ident)
+            if 'EnumIs' in prog.derives:
+                checks.append('        assert!(v.is_%s() == %s);' % (sn, 'true' if w is v else 'false'))
+            if 'EnumTryAs' in prog.derives and w.kind == 'tuple' and w.fields:
+                checks.append('        assert!(v.try_as_%s_ref().is_some() == %s);' % (sn, 'true' if w is v else 'false'))
+        if checks:
+            out.append('    #[kani::proof]\n    fn is_%s() {\n        let v: En = %s;\n%s\n    }' % (v.ident, val, '\n'.join(checks)))
+            hs.append(('is_' + v.ident, 'is_*/try_as_*_ref on %s' % v.ident))
     text = '\n#[cfg(kani)]\nmod vx_proofs {\n    use super::*;\n    type En = %s%s;\n%s\n}\n' % (E, inst, '\n'.join(out))
     return text, hs
 
